@@ -155,7 +155,7 @@ def simple_case(k):
 
 
 def samename_case(k, cond_stage):
-    """two looped components named 'x' in stages 0 and 1 (witness of F5b, repaired by d93f459): the condition is
+    """two looped components named 'x' in stages 0 and 1 (witness of F5b, repaired by 5c6cbf4): the condition is
     produced by the one of stage cond_stage.  Before the fix the state named whichever 'k#x' came first in a set."""
     return {'S': 1, 'dwname': 'dw', 'srcs': [['src0', 0]],
             'comps': [{'name': 'x', 'stage': 0, 'refs': [['B', 'b0', '']]},
